@@ -69,7 +69,8 @@ Record eff := mkEff {
 
 (** the controller proper *)
 Record core := mkCore {
-  c_state : cc_state; c_mode : climb_mode; c_target : Z; c_fr_ticks : Z }.
+  c_state : cc_state; c_mode : climb_mode; c_target : Z; c_fr_ticks : Z;
+  c_seeded : bool   (* target_bps has been seeded from observed throughput *) }.
 
 Record link := mkLink {
   k_rtt : rtt_part; k_win : loss_win; k_latch : latch; k_eff : eff; k_core : core }.
@@ -79,7 +80,7 @@ Definition link_default : link :=
          (mkWin [] 0 0 0 0 false)
          (mkLatch fzero 0 0 false)
          (mkEff 0 0 false 0)
-         (mkCore Bootstrap Normal MIN_TARGET_BPS 0).
+         (mkCore Bootstrap Normal MIN_TARGET_BPS 0 false).
 
 (** ---- record_rtt / update_rtt_min ---- *)
 Definition update_rtt_min (r : rtt_part) (ewma var : float) (last : Z) (rtt : float) (now : Z) : rtt_part :=
@@ -196,10 +197,9 @@ Definition clamp_target (x : Z) : Z := clamp MIN_TARGET_BPS MAX_TARGET_BPS x.
 Definition sane_observed (target observed : Z) : Z :=
   Z.min observed (Z.max target INITIAL_TARGET_BPS * CC_OUTLIER_FACTOR_micro / 1000000).
 
-(** the seeding rule of the code under study: [target_bps == MIN_TARGET_BPS] is the
-    "not yet seeded" test *)
-Definition seed_target (target sane : Z) : Z :=
-  if target =? MIN_TARGET_BPS then clamp_target (Z.max sane INITIAL_TARGET_BPS) else target.
+(** first non-bootstrap tick: seed from observed throughput ([if !self.seeded]) *)
+Definition seed_target (seeded : bool) (target sane : Z) : Z :=
+  if negb seeded then clamp_target (Z.max sane INITIAL_TARGET_BPS) else target.
 
 Definition choose_state (loss_high loaded unc : bool) (infl : float) : cc_state :=
   if loss_high && loaded && negb unc then BackingOff
@@ -228,13 +228,13 @@ Definition tick (s : link) (observed now : Z) (lewma : float) : link :=
   let w1 := evict_expired (k_win s) now in
   let c := k_core s in
   if rtt_invalid (k_rtt s) then
-    mkLink (k_rtt s) w1 (k_latch s) (k_eff s) (mkCore Bootstrap Normal MIN_TARGET_BPS (c_fr_ticks c))
+    mkLink (k_rtt s) w1 (k_latch s) (k_eff s) (mkCore Bootstrap Normal MIN_TARGET_BPS (c_fr_ticks c) false)
   else
     let loss_pm := loss_permille w1 in
     let la1 := update_loss_ewma (k_latch s) lewma now in
     let infl := rtt_inflation (k_rtt s) in
     let sane := sane_observed (c_target c) observed in
-    let target1 := seed_target (c_target c) sane in
+    let target1 := seed_target (c_seeded c) (c_target c) sane in
     let loaded := target1 * BACKOFF_MIN_LOAD_PERMILLE <=? sane * 1000 in
     let loss_high := LOSS_BACKOFF_PERMILLE <? loss_pm in
     let ef1 := update_backoff_efficacy (k_eff s) (c_state c) loss_high loss_pm in
@@ -248,7 +248,7 @@ Definition tick (s : link) (observed now : Z) (lewma : float) : link :=
                 end in
     let next := next_target next_state prev_state mode target1 sane in
     let fr2 := if cc_state_eqb next_state Climbing then ssub fr1 1 else 0 in
-    mkLink (k_rtt s) w1 la1 ef1 (mkCore next_state mode (clamp_target next) fr2).
+    mkLink (k_rtt s) w1 la1 ef1 (mkCore next_state mode (clamp_target next) fr2 true).
 
 (** ---- one link's share of [tick_all] ---- *)
 Record inp := mkInp {
